@@ -14,11 +14,11 @@ import (
 )
 
 type SolveResult struct {
-	Status  string // unsat | sat | unknown | timeout | error
-	Solver  string
-	Seconds float64
-	Output  string // full output of the deciding solver (model on sat)
-	All     map[string]string
+	Status    string // unsat | sat | unknown | timeout | error
+	Solver    string
+	Seconds   float64
+	Output    string // full output of the deciding solver (model on sat)
+	All       map[string]string
 	Candidate string // model of the relaxed query (candidate counterexample), if any
 }
 
